@@ -96,6 +96,55 @@ PROPERTIES = {
                     'that the network attaches the authenticated PeerId as the request extension read by peer_id() (C01)'],
         assumptions=['derived Hash/Eq of PeerId obey the hash-set key model'],
     ),
+    'C10': dict(
+        units=['active_peers'],
+        canaries=['dialing'],
+        counterexample=cex.cex_c10,
+        extra=[validate.admission_scenarios],
+        scope='the admission block of handle_incoming_task (lifted) decides exactly as the statement says for every affinity table, limit and '
+              'count: Never refused, High/Allowed admitted regardless of the limit, others admitted iff no limit or established connections < limit, '
+              'where the count is len() of the active-peer set = all established connections, inbound and outbound alike (C04 contracts); refusal happens '
+              'before the acknowledgement handshake; the dial block consults neither the limit nor the active-peer set; a failed dial is reported to the caller as a failure.',
+        unverified=['truly simultaneous arrivals (excluded by the property: the check and the registration are two critical sections)',
+                    'that the remote dialer observes the refusal (the acknowledgement never arrives and the connection is dropped): distributed, quinn; exercised end to end by the execution check admission_scenarios',
+                    'KnownPeers::get (RwLock<HashMap> lookup) is a stand-in'],
+        assumptions=[CONC],
+    ),
+    'C13': dict(
+        units=['active_peers'],
+        canaries=['dialing'],
+        scope='SAFETY clauses only. Back-off: every failure adds one to the count and the next attempt is allowed no sooner than min(max-backoff, k x step) '
+              'after the failure was noticed (exact formula, strict comparison in the eligibility filter); who is dialed: the lifted filter closure equals the '
+              'statement (High affinity, not self, has an address, not connected, not already being dialed, back-off elapsed); rotation: the lifted loop body dials '
+              'address number (failures mod addresses) naming the expected identity and marks the peer as being dialed; cap: number of dials started = min(eligible, cap - connections being established).',
+        unverified=['every liveness / timing clause ("keeps dialing until connected", "within one interval plus jitter", "within ... of becoming reachable")',
+                    'the retain pass that drains completed dials and applies DialBackoffState::new/update/remove (stateful closure over two maps: outside Verus), and anything '
+                    'else handle_connectivity_check does outside the three lifted blocks (see seeded change C13-backoff-state-gc-resets-attempts, NOT caught by the Verus unit)',
+                    'the iterator pipeline known_peers.values().filter(..).cloned().collect() and .take(number_to_dial) around the lifted blocks'],
+        assumptions=['Instant + Duration does not overflow; fewer than 2^64 consecutive failures'],
+    ),
+    'C03': dict(
+        units=['active_peers', 'crypto'],
+        canaries=['dialing'],
+        scope='glue only: (a) the pinning verifier accepts a server certificate only if its public key is the expected identity AND the base verifier accepts it, '
+              'and proof of key possession (handshake signature) is delegated unchanged to rustls restricted to Ed25519; (b) a dial with an expected identity goes through '
+              'connect_with_expected_peer_id(addr, id), one without through connect(addr); (c) a successful result registers the connection in the active-peer set and THEN answers '
+              'the caller with exactly the authenticated identity of that connection (ghost notification log with the connected set at that instant); a failure registers nothing and is reported as a failure.',
+        unverified=['rustls actually calls the verifier / the TLS handshake itself; X.509 parsing (peer_id_from_certificate)',
+                    'that the listener never registers a dialer that rejected it (cross-node; only the per-function handshake contract)',
+                    'datagram loss during the handshake (quinn)'],
+        assumptions=[CONC],
+    ),
+    'C09': dict(
+        units=['active_peers', 'network_api'],
+        canaries=['active_peers'],
+        scope='ONE sentence of three: an explicit disconnect removes the peer locally at once (one critical section), closes that connection and appends exactly '
+              'LostPeer(peer, Requested); afterwards peer(p) is None and rpc(p, _) fails until a new connection is registered; every way a connection can end is mapped '
+              'to its documented reason and a handler exit removes exactly its own entry.',
+        unverified=['"A lists B iff B lists A" after quiescence, and propagation of a close / loss to the other side within the idle timeout: time, the remote node, quinn keep-alive',
+                    'that every listed peer can be reached by RPC (liveness)'],
+        assumptions=[CONC],
+    ),
 }
 
 HOOK_COMMITS = ['5546537']
